@@ -86,6 +86,13 @@ def all_jobs():
     for fn in ('bloc_boolean', 'bloc_integer', 'bloc_numeric', 'bloc_literal', 'bloc_tabchar', 'bloc_value_isnull'):
         J.append(dict(id='capi_' + fn, src='blocc/bloc_capi.cpp', contract='capi.c', enforce=fn, roots=[fn], replace=[], cut=[RTE_CTOR, RTE_CTOR_S],
                       props=['C01', 'C15'], pretty=fn, canaries=['normal'], structs=DEFAULT_STRUCTS + [STD_STRING, VEC_CHAR, 'bloc::Error']))
+    for fn in ('bloc_table', 'bloc_tuple', 'bloc_imaginary', 'bloc_value_type', 'bloc_assign_null', 'bloc_create_integer', 'bloc_create_numeric', 'bloc_create_boolean', 'bloc_create_null'):
+        J.append(dict(id='capi_' + fn, src='blocc/bloc_capi.cpp', contract='capi.c', enforce=fn, roots=[fn], replace=['_ZN4bloc5Value4swapEOS0_', V_CLEAR], cut=[RTE_CTOR, RTE_CTOR_S, '_ZN4bloc5Value4swapEOS0_', V_CLEAR],
+                      props=['C01', 'C15'], pretty=fn, canaries=['normal'], defines=['CAPI_MORE'], structs=DEFAULT_STRUCTS + [STD_STRING, VEC_CHAR, 'bloc::Error', 'bloc_type', 'bloc_pair']))
+    for fn in ('bloc_array_item', 'bloc_array_size'):
+        J.append(dict(id='capi_' + fn, src='blocc/bloc_capi.cpp', contract='capi_array.c', enforce=fn, roots=[fn], replace=[], cut=[RTE_CTOR, RTE_CTOR_S],
+                      props=['C01', 'C15'], pretty=fn, canaries=['normal'],
+                      structs=DEFAULT_STRUCTS + [STD_STRING, VEC_CHAR, 'bloc::Error', 'bloc::Collection', 'bloc::Expression']))
     V_SWAP_RV_, V_CTOR_LIT = '_ZN4bloc5Value4swapEOS0_', '_ZN4bloc5ValueC1EPNSt7__cxx1112basic_stringIcSt11char_traitsIcESaIcEEE'
     MEMB_REPLACE = [VCALL_VALUE, V_MOVE_ASSIGN, V_CLEAR, CTX_ALLOCATE, V_SWAP_RV_, V_CLONE, V_CTOR_LIT, V_MOVE_CTOR]
     MEMB_CUT = MEMB_REPLACE + [RTE_CTOR, RTE_CTOR_S, '_ZNK4bloc5Value8toStringB5cxx11Ev', '_ZNK4bloc5Value8typeNameB5cxx11Ev']
@@ -267,6 +274,17 @@ def all_jobs():
     J.append(dict(id='ctx_memoryslot_copy', src='blocc/context.cpp', contract='ctx_clone.c', enforce=mg, roots=[mg], replace=[V_CLONE, V_MOVE_CTOR, V_CLEAR], cut=[V_CLONE, V_MOVE_CTOR, V_CLEAR],
                   props=['C01', 'C14'], pretty='bloc::Context::MemorySlot::MemorySlot(const MemorySlot&)', canaries=['normal'], defines=['JOB_SLOT'],
                   structs=DEFAULT_STRUCTS + [STD_STRING, 'bloc::Context', 'bloc::Context::MemorySlot', 'bloc::Symbol']))
+    mg = '_ZN4bloc5Value6_clearEv'
+    J.append(dict(id='value_clear', src='blocc/value.cpp', contract='value_clear.c', enforce=mg, roots=[mg], replace=[], cut=[],
+                  props=['C01', 'C17'], pretty='bloc::Value::_clear', canaries=['normal'], structs=DEFAULT_STRUCTS + [STD_STRING, VEC_CHAR]))
+    for jid, mg, df in (('value_move_assign', '_ZN4bloc5ValueaSEOS0_', 'JOB_MOVE_ASSIGN'), ('value_swap_rv', '_ZN4bloc5Value4swapEOS0_', 'JOB_SWAP_RV'),
+                        ('value_move_ctor', '_ZN4bloc5ValueC2EOS0_', 'JOB_MOVE_CTOR'), ('value_swap_lv', '_ZN4bloc5Value4swapERS0_', 'JOB_SWAP_LV')):
+        J.append(dict(id=jid, src='blocc/value.cpp', contract='value_core.c', enforce=mg, roots=[mg], replace=[], cut=['_ZN4bloc5Value6_clearEv'], defines=[df],
+                      props=['C01', 'C05', 'C17'], pretty=jid.replace('value_', 'bloc::Value ') , canaries=['normal'], structs=DEFAULT_STRUCTS))
+    mg = '_ZN4bloc7Context4Pool4keepEONS_5ValueE'
+    J.append(dict(id='ctx_pool_keep', src='blocc/builtin/builtin_abs.cpp', contract='ctx_pool.c', enforce=mg, roots=[mg], replace=[], cut=['_ZN4bloc5Value4swapEOS0_', V_MOVE_CTOR],
+                  props=['C01', 'C05', 'C17'], pretty='bloc::Context::Pool::keep (Context::allocate)', canaries=['normal'], bounded_inputs=True, unwind=2, defines=['ENFORCING_VALUE_CORE'],
+                  unwind_why='no loop; the pool is modelled by an array of at most 3 slots', structs=DEFAULT_STRUCTS + ['bloc::Context::Pool']))
     # ---- generic builtin contracts (C01, C05): one job per builtin listed here ----
     for ent in BUILTINS_GENERIC:
         name, cls, nargs = ent[0], ent[1], ent[2]
@@ -343,6 +361,8 @@ ASSUMPTIONS = [
   'Mode B: the assigns clause of the function under contract is not machine-checked; frame facts that matter are explicit ensures over ghost snapshots',
   'children of an expression node obey the interface contract VCALL_Expression_value (contracts/iface.h): valid tag/flags, only RuntimeError thrown, each evaluation returns a distinct object',
   'heap exhaustion and stack overflow do not occur',
+  'callee contracts used as stubs (contracts/value_api.h): Value::_clear, Value::clone, Value(Value&&), operator=(Value&&), swap(Value&&), swap(Value&) and Context::allocate (Pool::keep, bounded) are ALSO proved on their real bodies by the jobs value_clear, value_clone, value_move_*, value_swap_*, ctx_pool_keep; the remaining stubs (Value constructors from payloads, Context::storeVariable / getSymbol / control stack, libstdc++ containers, libm) are assumed',
+  'std::string / std::vector / std::list are modelled at API level (contracts/containers.h, strid.h and per-job ghost arrays): sizes and, where a clause needs it, content identity; iterator and index preconditions of the library are asserted, contents are not modelled unless the job says so',
   'integer-to-integer conversions are modulo 2^N as GCC defines them (CBMC conversion-check results for them are ignored; float-to-integer conversions are checked)',
   'the structural induction over the expression tree that carries per-node contracts to whole programs is argued in DESIGN.md, not mechanised',
 ]
